@@ -1,4 +1,5 @@
 import UtilModel.Core.Driver
+import UtilModel.Core.DriverH
 import UtilModel.RefCount.Model
 import UtilModel.RefCount.Monitors
 import UtilModel.RefCount.Consumers
@@ -9,9 +10,9 @@ open UtilModel
 
 def main (args : List String) : IO UInt32 :=
   driverMain [
-    mkEntry "refcount" RefCount.model RefCount.Obs.parse
+    mkEntryH "refcount" RefCount.model RefCount.Obs.parse
       [MonEntry.ofMonitor "C08" RefCount.monC08, MonEntry.ofMonitor "C09" RefCount.monC09],
-    mkEntry "refcount-consumers" RefCount.Cons.cmodel RefCount.Cons.CObs.parse
+    mkEntryH "refcount-consumers" RefCount.Cons.cmodel RefCount.Cons.CObs.parse
       [MonEntry.ofMonitor "C10" RefCount.Cons.monC10, MonEntry.ofMonitor "C08c" RefCount.Cons.monC08c,
-       MonEntry.ofMonitor "C09c" RefCount.Cons.monC09c] (cap := 4000)
+       MonEntry.ofMonitor "C09c" RefCount.Cons.monC09c] (cap := 20000)
   ] args
